@@ -275,6 +275,41 @@ pub fn bitseq_print(s: &mut Src) -> R {
     Ok(())
 }
 
+/// parsing and printing on strings of every length 0..=66 (BOUNDED, sampled; native only): from_str accepts exactly the 0/1-strings of
+/// length <= 64 (anything longer must be rejected: Err or panic), bit k is character k, to_string / from_str round-trip -- incl. the empty one
+pub fn bitseq_parse_print_long(s: &mut Src) -> R {
+    use std::str::FromStr;
+    let n = s.small(0, 66) as usize;
+    let val = s.u64(); let junk_at = s.small(0, 80) as usize; let junk = s.small(0, 5);
+    reach!();
+    let mut st = String::new();
+    for k in 0..n {
+        if k == junk_at { st.push(match junk { 0 => '+', 1 => '-', 2 => ' ', 3 => '2', 4 => 'x', _ => '_' }); }
+        else { st.push(if bit_of(val, k % 64) { '1' } else { '0' }); }
+    }
+    let all_bits = !(junk_at < n);
+    let r = std::panic::catch_unwind(|| BitSeq::from_str(&st));
+    match r {
+        Err(_) => { ob!(n > 64, "from_str::panics-only-on-overlong-input"); }
+        Ok(r) => {
+            ob!(n <= 64 || r.is_err(), "from_str::rejects-more-than-64-bits");
+            ob!(n > 64 || r.is_ok() == all_bits, "from_str::accepts-exactly-0/1-strings");
+            if let Ok(b) = r {
+                ob!(b.len() == n, "from_str::len");
+                for k in 0..n { ob!(bit_of(b.as_u64(), k) == bit_of(val, k % 64), "from_str::bit-k-is-char-k"); }
+                ob!(b.to_string() == st, "to_string(from_str(s))==s");
+            }
+        }
+    }
+    if n <= 64 {
+        let b = BitSeq::new(val & low_mask(n), n);
+        let t = b.to_string();
+        ob!(t.len() == n && t.bytes().enumerate().all(|(k, c)| c == if bit_of(val, k) { b'1' } else { b'0' }), "to_string::char-k-is-bit-k");
+        ob!(BitSeq::from_str(&t) == Ok(b), "from_str(to_string(b))==b");
+    }
+    Ok(())
+}
+
 // ---- rejection (variant A on the real crate): the call must panic ----
 
 pub fn bitseq_reject_push_full(s: &mut Src) -> R {
@@ -294,7 +329,7 @@ crate::harness_table!(BITSEQ:
     bitseq_new, bitseq_new_rev, bitseq_consts, bitseq_set, bitseq_push, bitseq_append,
     bitseq_remove, bitseq_insert, bitseq_sub, bitseq_is_sub, bitseq_index, bitseq_from_bit,
     bitseq_weight [unwind 66], bitseq_cmp [unwind 10], bitseq_iter [unwind 66],
-    bitseq_from_iter [unwind 66], bitseq_generate [unwind 10], bitseq_parse [unwind 5], bitseq_print [unwind 5],
+    bitseq_from_iter [unwind 66], bitseq_generate [unwind 10], bitseq_parse [unwind 5], bitseq_print [unwind 5], bitseq_parse_print_long,
 );
 /// collecting more than 64 bits "would exceed the maximum": it must be rejected, not truncated
 pub fn bitseq_reject_from_iter_overlong(s: &mut Src) -> R {
